@@ -63,33 +63,37 @@ func verifyCaveats(caveats []string, userID string) error {
 	var verified uint8
 	now := time.Now().Unix()
 
-LoopCaveat:
 	for _, caveat := range caveats {
+		var bit uint8
 		switch {
 		case caveat == Gen:
-			verified |= 1
+			bit = 1
 		case strings.HasPrefix(caveat, UserPrefix):
-			if caveat[len(UserPrefix):] == userID {
-				verified |= 2
+			if caveat[len(UserPrefix):] != userID {
+				return errors.New("Token was issued for another user")
 			}
+			bit = 2
 		case strings.HasPrefix(caveat, TimePrefix):
-			if verifyExpiry(caveat[len(TimePrefix):], now) {
-				verified |= 4
+			if !verifyExpiry(caveat[len(TimePrefix):], now) {
+				return errors.New("Token has expired")
 			}
+			bit = 4
 		default:
-			verified |= 8
-			break LoopCaveat
+			return errors.New("Unknown caveat present")
 		}
+		// Every caveat restricts the token: all of them must hold, and
+		// each required caveat must be present exactly once. (Anyone holding
+		// a token can append further caveats to it without knowing the key.)
+		if verified&bit != 0 {
+			return errors.New("Duplicate caveat present")
+		}
+		verified |= bit
 	}
-	// Check that all three caveats are verified and no extra caveats
-	// i.e. Uvvv == 0111
-	if verified == 7 {
-		return nil
-	} else if verified >= 8 {
-		return errors.New("Unknown caveat present")
+	// Check that all three caveats are verified i.e. vvv == 111
+	if verified != 7 {
+		return errors.New("Required caveats not present")
 	}
-
-	return errors.New("Required caveats not present")
+	return nil
 }
 
 func verifyExpiry(t string, now int64) bool {
